@@ -150,6 +150,10 @@ def run_case(ctx, case):
                         # the 'open' policy lets anybody destroy: use somebody who is not the owner
                         destroyer = rng.choice([i for i in IDENTS if i[0] != owner and i[1] is None] or [destroyer])
                         ctx.count('destroys_by_non_owner')
+                    if rng.random() < 0.6:
+                        # somebody lists the store right before the Destroy (whatever the server remembers of a listing
+                        # must not outlive the object)
+                        srv.send([op_locate()], rng.choice((destroyer, rng.choice(IDENTS))), rng.choice(((1, 2), (1, 4))))
                     r = srv.send([op_destroy(uid)], destroyer, version)
                     if r.error is None and r.ok():
                         ctx.count('destroys_acknowledged')
@@ -279,6 +283,16 @@ def check_dead(ctx, srv, uid, helper, rng):
             if (r.reason(), r.message()) != exp:
                 ctx.violation('alive:%s|text' % name, '%s on destroyed identifier answers %s, a never-issued identifier %s'
                               % (name, r.brief(), rr.brief()), None)
+        # follow-up pages first (offset / maximum items, KMIP 1.3 and later), then the whole listing
+        for pv, off, mx in (((1, 3), 1, None), ((1, 4), 1, 1000), ((2, 0), 2, 5), ((1, 4), 0, 1000)):
+            try:
+                rp = srv.send([op_locate(offset=off, maximum=mx)], ident, pv)
+            except Exception:
+                continue
+            ctx.count('paged_locates_after_destroy')
+            if rp.error is None and rp.ok() and uid in rp.uids():
+                ctx.violation('alive:locate|paged', 'Locate (offset %s, maximum %s) by %r lists destroyed identifier %s'
+                              % (off, mx, ident, uid), None)
         r = srv.send([op_locate()], ident, (1, 2))
         if r.error is None and r.ok() and uid in r.uids():
             ctx.violation('alive:locate', 'Locate by %r lists destroyed identifier %s' % (ident, uid), None)
